@@ -173,6 +173,61 @@ theorem stop_stalled_all_dead {W : Nat} {fc : Int} {s : StopState} (hi : SInv W 
   | parked => have := hst (.exit j) rfl; simp [sstep?, hj, hs] at this
   | dead k => exact ⟨k, rfl⟩
 
+/-! ### `stop()` after a raise: W non-blocking puts into a queue nobody reads -/
+
+theorem stopAfterRaise_nonblocking (cap : Nat) : ∀ (k cmd : Nat),
+    (stopAfterRaise false cap cmd k = .joined ↔ cmd + k ≤ cap ∨ k = 0) ∧
+    (stopAfterRaise false cap cmd k = .full ↔ cap < cmd + k ∧ 0 < k) ∧
+    stopAfterRaise false cap cmd k ≠ .blocked := by
+  intro k
+  induction k with
+  | zero => intro cmd; simp [stopAfterRaise]
+  | succ k ih =>
+    intro cmd
+    simp only [stopAfterRaise]
+    by_cases h : cmd < cap
+    · simp only [h, if_true]
+      obtain ⟨h1, h2, h3⟩ := ih (cmd + 1)
+      refine ⟨?_, ?_, h3⟩
+      · rw [h1]; omega
+      · rw [h2]; omega
+    · simp [h]; omega
+
+theorem stopAfterRaise_blocking (cap : Nat) : ∀ (k cmd : Nat),
+    (stopAfterRaise true cap cmd k = .blocked ↔ cap < cmd + k ∧ 0 < k) := by
+  intro k
+  induction k with
+  | zero => intro cmd; simp [stopAfterRaise]
+  | succ k ih =>
+    intro cmd
+    simp only [stopAfterRaise]
+    by_cases h : cmd < cap
+    · simp only [h, if_true]
+      rw [ih (cmd + 1)]; omega
+    · simp [h]; omega
+
+/-- number of `put` attempts `stop()` makes: never more than the W of the `for` loop -/
+def putAttempts (cap cmd : Nat) : Nat → Nat
+  | 0 => 0
+  | k + 1 => if cmd < cap then 1 + putAttempts cap (cmd + 1) k else 1
+
+theorem putAttempts_le (cap : Nat) : ∀ (k cmd : Nat), putAttempts cap cmd k ≤ k := by
+  intro k
+  induction k with
+  | zero => intro cmd; simp [putAttempts]
+  | succ k ih =>
+    intro cmd
+    simp only [putAttempts]
+    split
+    · have := ih (cmd + 1); omega
+    · omega
+
+theorem killAll_dead (s : State) : ∀ w ∈ (killAll s).ws, ∃ k, w = WState.dead k := by
+  intro w hw
+  simp only [killAll, List.mem_map] at hw
+  obtain ⟨x, _, hx⟩ := hw
+  cases x <;> simp [WState.live] at hx <;> exact ⟨_, hx.symm⟩
+
 theorem stopOf_init {c : Cfg} {s : State} (hl : s.ws.length = c.W) : StopInit c.W (stopOf c s) := by
   refine ⟨rfl, rfl, rfl, by simp [stopOf, hl], ?_⟩
   intro w hw
